@@ -198,6 +198,11 @@ func (bridge *ExprBridge) CompileExpressionWithStreamSQLFunctions(expression str
 			if len(params) != 2 {
 				return false, fmt.Errorf("like_match function requires 2 parameters")
 			}
+			if params[0] == nil {
+				// LIKE on a NULL or missing column is not true; it must not abort the
+				// evaluation of the whole predicate (x LIKE 'a_c' OR y IS NULL).
+				return false, nil
+			}
 			text, ok1 := params[0].(string)
 			pattern, ok2 := params[1].(string)
 			if !ok1 || !ok2 {
